@@ -20,6 +20,15 @@
                      handleLocalCallReq, relayFragmentSender.newFragment / flushFragment
      preinit_connection.go  readMessage / writeMessage
 
+   forwardPeerFrame (tree with fix 6451431 "refuse later frames of an exchange once one was
+   dropped"): context error first, then frameDropped, then "recvCh has room" BEFORE "errCh is
+   notified" -- a frame that arrives after the exchange's error was latched (LErrN: stopExchanges
+   after a connection or protocol error, the exchange still registered) is queued while recvCh
+   has room and then belongs to the call: both branches of the select (case recvCh <- frame, and
+   case <-errCh.c followed by the non-blocking send) return nil, so the reader loop keeps its
+   hands off and the only release is the fragment's done().  [LReadFwd] has exactly one rule for
+   that hand-over (x_errn is not consulted while mex_room holds).
+
    Granularity: one label = one atomic action (a channel operation, or a stretch of code that
    only touches a frame the acting goroutine holds in a local variable).  Results of racy
    reads that do not concern frames (connection state, relay item lookups, parse results)
@@ -102,7 +111,8 @@ Record mexst := {
   x_live : bool;      (* present in messageExchangeSet.exchanges *)
   x_q : list Z;       (* recvCh *)
   x_ctx : bool;       (* mex.ctx.Err() != nil *)
-  x_errn : bool       (* errCh notified (stopExchanges or shutdown) *)
+  x_errn : bool;      (* errCh notified (stopExchanges or shutdown) *)
+  x_dropped : bool    (* frameDropped: a frame was refused because errCh was notified while recvCh was full *)
 }.
 
 (* reqResReader + fragmentingReader of a call *)
@@ -141,7 +151,7 @@ Record st := {
   s_trace : list ev          (* ghost: history, newest first; never read by [step] *)
 }.
 
-Definition mex0 : mexst := {| x_used := false; x_conn := 0; x_cap := 0; x_live := false; x_q := []; x_ctx := false; x_errn := false |}.
+Definition mex0 : mexst := {| x_used := false; x_conn := 0; x_cap := 0; x_live := false; x_q := []; x_ctx := false; x_errn := false; x_dropped := false |}.
 Definition rdr0 : rdr := {| r_init := None; r_prev := None; r_cur := None; r_err := false; r_complete := false;
                             r_inbound := false; r_quit := false; r_frame0 := None |}.
 Definition wr0 : wr := {| w_cur := None; w_sent := false; w_err := false; w_complete := false; w_inbound := false |}.
@@ -186,13 +196,15 @@ Definition bump (s : st) : st :=
      s_cap := s_cap s; s_stop := s_stop s; s_wexit := s_wexit s; s_fdone := s_fdone s; s_ty := s_ty s; s_trace := s_trace s |}.
 
 Definition mx_q (m : mexst) (q : list Z) : mexst :=
-  {| x_used := x_used m; x_conn := x_conn m; x_cap := x_cap m; x_live := x_live m; x_q := q; x_ctx := x_ctx m; x_errn := x_errn m |}.
+  {| x_used := x_used m; x_conn := x_conn m; x_cap := x_cap m; x_live := x_live m; x_q := q; x_ctx := x_ctx m; x_errn := x_errn m; x_dropped := x_dropped m |}.
 Definition mx_ctx (m : mexst) : mexst :=
-  {| x_used := x_used m; x_conn := x_conn m; x_cap := x_cap m; x_live := x_live m; x_q := x_q m; x_ctx := true; x_errn := x_errn m |}.
+  {| x_used := x_used m; x_conn := x_conn m; x_cap := x_cap m; x_live := x_live m; x_q := x_q m; x_ctx := true; x_errn := x_errn m; x_dropped := x_dropped m |}.
 Definition mx_errn (m : mexst) : mexst :=
-  {| x_used := x_used m; x_conn := x_conn m; x_cap := x_cap m; x_live := x_live m; x_q := x_q m; x_ctx := x_ctx m; x_errn := true |}.
+  {| x_used := x_used m; x_conn := x_conn m; x_cap := x_cap m; x_live := x_live m; x_q := x_q m; x_ctx := x_ctx m; x_errn := true; x_dropped := x_dropped m |}.
+Definition mx_dropped (m : mexst) : mexst :=
+  {| x_used := x_used m; x_conn := x_conn m; x_cap := x_cap m; x_live := x_live m; x_q := x_q m; x_ctx := x_ctx m; x_errn := x_errn m; x_dropped := true |}.
 Definition mx_dead (m : mexst) : mexst :=
-  {| x_used := x_used m; x_conn := x_conn m; x_cap := x_cap m; x_live := false; x_q := x_q m; x_ctx := x_ctx m; x_errn := x_errn m |}.
+  {| x_used := x_used m; x_conn := x_conn m; x_cap := x_cap m; x_live := false; x_q := x_q m; x_ctx := x_ctx m; x_errn := x_errn m; x_dropped := x_dropped m |}.
 
 Definition rd_set (r : rdr) (i p c : option Z) (e cpl q : bool) : rdr :=
   {| r_init := i; r_prev := p; r_cur := c; r_err := e; r_complete := cpl; r_inbound := r_inbound r;
@@ -320,8 +332,12 @@ Definition step (pinned : bool) (s : st) (l : label) : option st :=
           let m := s_mex s k in
           if negb (x_live m) then Some s1     (* not in the exchanges map: same *)
           else if x_ctx m then Some (p_rel S_rf_rel t s1)
-          else if mex_room m then Some (push_mex k t s1)
-          else if x_errn m then Some (p_rel S_rf_rel t s1)
+          else if x_dropped m then Some (p_rel S_rf_rel t s1)   (* frameDropped: refused, the reader loop releases *)
+          else if mex_room m then Some (push_mex k t s1)        (* queued -- ALSO when errCh is already notified: the
+                                                                   frame then belongs to the call, forwardPeerFrame returns
+                                                                   nil from either select branch and nobody else releases *)
+          else if x_errn m then Some (p_rel S_rf_rel t (set_mex s1 k (mx_dropped m)))
+                                                                (* full and failed: refused now and from now on *)
           else None                           (* blocked in the select *)
       end
   | LReadCallReq c k =>
@@ -330,7 +346,7 @@ Definition step (pinned : bool) (s : st) (l : label) : option st :=
         let t := s_next s in
         let s1 := p_acc t (p_get S_rf_get (PReader c) s) in
         let s2 := set_mex s1 k {| x_used := true; x_conn := c; x_cap := c_mexChannelBufferSize; x_live := true;
-                                  x_q := []; x_ctx := false; x_errn := false |} in
+                                  x_q := []; x_ctx := false; x_errn := false; x_dropped := false |} in
         let s3 := set_wr s2 k {| w_cur := None; w_sent := false; w_err := false; w_complete := false; w_inbound := true |} in
         let s4 := set_rdr s3 k {| r_init := Some t; r_prev := None; r_cur := None; r_err := false; r_complete := false;
                                   r_inbound := true; r_quit := false; r_frame0 := Some t |} in
@@ -358,7 +374,7 @@ Definition step (pinned : bool) (s : st) (l : label) : option st :=
       if x_used (s_mex s k) then None
       else
         let s2 := set_mex s k {| x_used := true; x_conn := c; x_cap := cap; x_live := true;
-                                 x_q := []; x_ctx := false; x_errn := false |} in
+                                 x_q := []; x_ctx := false; x_errn := false; x_dropped := false |} in
         let s3 := set_rdr s2 k rdr0 in
         Some (set_wr s3 k wr0)
   | LCtx k => Some (set_mex s k (mx_ctx (s_mex s k)))
